@@ -60,41 +60,98 @@ let () = register "c02.apply" (fun line ->
    | Fault _ -> "PANIC other"
    | OutOfFuel -> "FUEL") ^ "\t-\t-")
 
-let parse_note tok =
-  let d = n_of_int (Char.code tok.[1] - 48) in
+(* which decode / which didSave the model uses: Model/TextSyncUri.v deployed_uri_fixed / deployed_save_fixed;
+   VERIF_C02_URI=1|0 and VERIF_C02_SAVE=1|0 override them (to run the model of the code before the repairs) *)
+let envb name dflt = match Sys.getenv_opt name with Some "1" -> true | Some "0" -> false | _ -> dflt
+let ux = envb "VERIF_C02_URI" deployed_uri_fixed
+let sx = envb "VERIF_C02_SAVE" deployed_save_fixed
+
+(* the URIs of a history: first token "U:<hex name>,<hex name>,..." (names as they stand in the URI behind
+   file://<root>/, percent-encoding included); without it the four documents of the old case format.
+   The model puts them under the root /R: the real root is a temporary directory made of letters, digits, '-', '_'
+   and '/', which every variant of the decode leaves alone. *)
+let default_names = ["d0.lua"; "d1.lua"; "d2.lua"; "d3.txt"]
+let mk_uri name = prefix2 @ bytes_of_string "/R/" @ name
+let split_table toks = match toks with
+  | t :: rest when String.length t >= 2 && String.sub t 0 2 = "U:" ->
+    List.map bytes_of_hex (String.split_on_char ',' (String.sub t 2 (String.length t - 2))), rest
+  | _ -> List.map bytes_of_string default_names, toks
+
+let parse_note tab tok =
+  let u = tab.(Char.code tok.[1] - 48) in
   let rest () = String.sub tok 3 (String.length tok - 3) in
   match tok.[0] with
-  | 'O' -> DidOpen (d, cps_of (rest ()))
-  | 'C' -> DidChange (d, parse_changes cps_of (rest ()))
-  | 'S' -> let r = rest () in DidSave (d, if r = "nil" then None else Some (cps_of r))
-  | 'X' -> DidClose d
+  | 'O' -> UOpen (u, cps_of (rest ()))
+  | 'C' -> UChange (u, parse_changes cps_of (rest ()))
+  | 'S' -> let r = rest () in USave (u, if r = "nil" then None else Some (cps_of r))
+  | 'X' -> UClose u
   | _ -> failwith "bad note"
 
 let note_texts = function
-  | DidOpen (_, t) -> [t]
-  | DidChange (_, chs) -> List.map (fun ch -> ch.c_text) chs
-  | DidSave (_, Some t) -> [t]
+  | UOpen (_, t) -> [t]
+  | UChange (_, chs) -> List.map (fun ch -> ch.c_text) chs
+  | USave (_, Some t) -> [t]
   | _ -> []
 
-let state_s (c : cache) =
-  String.concat "," (List.map (fun d -> match c (n_of_int d) with None -> "~" | Some l -> hex_of_bytes l) [0; 1; 2; 3])
+let cell = function None -> "~" | Some l -> hex_of_bytes l
 
-(* case: notifications separated by blanks, texts as code points.
-   model = server cache after every notification; spec = client texts (UTF-8) after every notification *)
+(* case: [U:<names>] notifications separated by blanks, texts as code points.
+   model = server cache at the key of every URI of the table after every notification;
+   spec = client text of every URI of the table after every notification *)
 let history line =
-  let notes = List.map parse_note (split_ws line) in
+  let names, toks = split_table (split_ws line) in
+  let tab = Array.of_list (List.map mk_uri names) in
+  let ul = Array.to_list tab in
+  let notes = List.map (parse_note tab) toks in
   if not (List.for_all (fun n -> List.for_all (List.for_all scalar) (note_texts n)) notes) then "BAD-CASE" else
-  let m = List.map (function Ok c -> state_s c | Fault _ -> "PANIC" | OutOfFuel -> "FUEL")
-      (trace fx empty_cache (List.map enc_note notes)) in
+  let key u = uri_key ux prefix2 u in
+  let mstate (c : kcache) = String.concat "," (List.map (fun u -> cell (c (key u))) ul) in
+  let sstate (c : kcache) = String.concat "," (List.map (fun u -> cell (c u)) ul) in
+  let m = List.map (function Ok c -> mstate c | Fault _ -> "PANIC" | OutOfFuel -> "FUEL")
+      (utrace fx ux sx prefix2 kempty (List.map enc_unote notes)) in
   let m = if m = [] then "-" else String.concat " " m in
-  if not (conformant_from empty_cache notes) then m ^ "\t-\t-" else begin
-    let _, sp = List.fold_left (fun (cs, acc) n -> let cs' = spec_step cs n in (cs', state_s (enc_cache cs') :: acc))
-        (empty_cache, []) notes in
+  (* outside the property's quantifier: a non-conformant history; a table in which two URIs name one resource
+     (equal after RFC 3986 percent-decoding) *)
+  if not (uconformant_from (fun u -> is_lua_key (key u)) kempty notes && inj_on true prefix2 ul) then m ^ "\t-\t-" else begin
+    let _, sp = List.fold_left (fun (cs, acc) n -> let cs' = uspec_step cs n in (cs', sstate (enc_kcache cs') :: acc))
+        (kempty, []) notes in
     let s = if sp = [] then "-" else String.concat " " (List.rev sp) in
-    let cl = if fx then "-" else classes ["stale", stale fx notes; "astral", astral notes; "lone_cr", lone_cr notes] in
+    let cl = classes (["uri_plus", not (inj_on ux prefix2 ul); "save_nil", (not sx) && save_nil notes] @
+                      (if fx then [] else
+                         ["stale", ustale fx ux sx prefix2 notes;
+                          "astral", not (uclass_ok_from no_astral kempty notes);
+                          "lone_cr", not (uclass_ok_from no_lone_cr kempty notes)])) in
     m ^ "\t" ^ s ^ "\t" ^ cl
   end
 let () = register "c02.history" history
 let () = register "c02.history_bad" history
+
+(* case: the URI in hex.  model = VscodeURIToString; spec = the RFC 3986 reading (prefix removed, percent-decoded,
+   '+' is '+'; the server's backslash normalisation kept) where the URI starts with the prefix and is well formed *)
+let uri_leg prefix line =
+  let u = bytes_of_hex line in
+  let m = hex_of_bytes (uri_key ux prefix u) in
+  let wf = match strip_prefix prefix u with
+    | Some r -> (match unescape true r with Some _ -> true | None -> false)
+    | None -> false in
+  let s = if wf then hex_of_bytes (uri_key true prefix u) else "-" in
+  let cl = if wf && m <> s then "uri_plus" else "-" in
+  m ^ "\t" ^ s ^ "\t" ^ cl
+let () = register "c02.uri" (uri_leg prefix2)
+let () = register "c02.uri3" (uri_leg prefix3)
+
+(* case: <root URI hex> <root path hex>.  model = InitialRootURIAndPath starting from "file:///": 2 = the prefix becomes
+   "file://", 3 = it stays.  spec = 2 where the root URI is file:// followed by a well-formed encoding of the root path
+   (RFC 3986 reading; the server's backslash normalisation kept), nothing demanded otherwise *)
+let () = register "c02.rootprefix" (fun line ->
+  match split_ws line with
+  | [a; b] ->
+    let ru = bytes_of_hex a and rp = bytes_of_hex b in
+    let p = init_prefix ux prefix3 ru rp in
+    let m = if p = prefix2 then "2" else "3" in
+    let s = if rp <> [] && init_prefix true prefix3 ru rp = prefix2 then "2" else "-" in
+    let cl = if s <> "-" && m <> s then "uri_plus" else "-" in
+    m ^ "\t" ^ s ^ "\t" ^ cl
+  | _ -> "BAD-CASE")
 
 let () = main ()
